@@ -282,7 +282,13 @@ class CircuitKit(Kit):
             c.Swap(self.bit, self.qubit), c.Swap(self.qubit, self.bit),
             c.Swap(self.bit, self.bit),
             g.ClassicalGate('c', 1, 1, [.25, .75, .5, .5]),
-            g.scalar(round(rng.uniform(0, 2), 2), is_mixed=True)]
+            g.scalar(round(rng.uniform(0, 2), 2), is_mixed=True),
+            # every flag combination (their daggers carry the flags over) and
+            # a two-wire instance
+            c.Measure(override_bits=True), c.Encode(reset_bits=True),
+            c.Measure(destructive=False, override_bits=True),
+            c.Encode(constructive=False, reset_bits=True),
+            c.Measure(2), c.Encode(2, reset_bits=True)]
         return pure + mixed
 
     def rand_layer(self, rng, scan):
